@@ -22,7 +22,7 @@ Hdr(dev, mt, dt, plen) ==
        \o BE16(plen) \o << 0, 0 >>
 Frame(dev, mt, dt, p) == Hdr(dev, mt, dt, Len(p)) \o p
 
-Modes == {"msgtype", "datatype", "can", "lin", "bus", "cm", "plen"}
+Modes == {"msgtype", "datatype", "can", "lin", "bus", "cm", "plen", "statusdt"}
 
 Init == pc = "pick" /\ mode \in Modes /\ frame = << >> /\ info = << >> /\ out = << >> /\ hist = << >>
 
@@ -56,6 +56,10 @@ Next ==
        \/ mode = "cm" /\ \E n \in 1..46, sv \in {<< 1, 97, 22, 225 >>, << 255, 255, 255, 255 >>, << 0, 0, 0, 0 >>} :
              Set(Frame(12, 1, 0, SubSeq(<< 12, 1, 4, 0, 0, 24, 0, 67 >> \o sv \o << 0, 20, 7, 10, 3, 3 >> \o B(28, 9), 1, n)),
                  [n |-> n, sv |-> sv])
+       (* status messages do not use the data type field: whatever it holds (but the reserved 0xFF00), they convert (round7c-4) *)
+       \/ mode = "statusdt" /\ \E dt \in {0, 1, 2, 255, 256, 511, 4660, 65279, 65281, 65535} :
+             \/ Set(Frame(14, 1, dt, SubSeq(<< 12, 1, 4, 0, 0, 24, 0, 67, 0, 0, 1, 2, 0, 20, 7, 10, 3, 3 >> \o B(28, 9), 1, 36)), [mt |-> 1, dt |-> dt])
+             \/ Set(Frame(14, 2, dt, B(12, 1) \o << 0, 0, 1, 16 >> \o << 0, 1, 1, 2 >> \o << 0, 0, 0, 1 >>), [mt |-> 2, dt |-> dt])
        \/ mode = "plen" /\ \E declared \in {0, 1, 8, 9, 10, 65535}, mt \in {1, 2, 3} :
              LET p == CanP(<< 0, 0, 3, 33 >>, 4, 4, << >>)      \* 9 payload bytes
                  f == Hdr(13, mt, 2, declared) \o p IN
@@ -87,6 +91,7 @@ InvC15 == pc = "done" =>
            /\ \A e \in 1..info.k : /\ out[e].ifid = << 0, 0, BusId(e, info.m), 16 >> /\ Slice(out[e].pl, 0, 4) = << 0, 0, BusId(e, info.m), 16 >>
                                    /\ Slice(out[e].pl, 4, 4) = << 0, 1, e, 2 >> /\ Slice(out[e].pl, 20, 4) = << 0, 0, 0, e >>)
     /\ (mode = "cm" => (Len(out) = 1 <=> info.n >= 36))
+    /\ (mode = "statusdt" => Len(out) = 1 /\ out[1].mt = 3 /\ out[1].pt = info.mt)
     /\ (mode = "plen" => (Len(out) > 0 => info.declared \in 1..9 /\ Len(frame) >= 28 + info.declared))
 
 DumpEdges == (DumpCases /\ pc' = "done") => PrintT(<< "CASE", ToJson(hist') >>)
